@@ -45,6 +45,12 @@ class Unit:
             res.unsupported.append("extraction failed: %s" % e)
             return res
         res.ext = ext
+        # decorators wrap the function: only the ones whose meaning the engine knows are accepted
+        known = {"property", "staticmethod", "classmethod", "require_keywords"}
+        odd = [d for d in ext.decorators if d not in known and not d.endswith(".setter")]
+        if odd:
+            res.unsupported.append("decorator(s) %s change the function's behaviour in ways the engine does not model" % odd)
+            return res
         interp = Interp(contracts=self.contracts, inline=self.inline, env_overrides=self.env,
                         options=self.options)
         interp.loop_contracts = dict(self.loops)
